@@ -16,7 +16,7 @@ func init() {
 			"(a) every success return of BlockRootToSlot carries a slot that derives from the cache lookup on the found edge or from the header fetched in this call; " +
 			"(b) the value stored on the miss path and the value returned derive from the same response field and the key stored is the root parameter; " +
 			"(c) the fetch's failure edge returns a non-nil error derived from the fetch error; (d) block-event handlers store (Block, Slot) of the same event; " +
-			"(e) every delete on the map is guarded by slot < minSlot with minSlot = FirstSlotOfEpoch(CurrentEpoch()-margin), the subtraction is guarded, lock pairing and guarded-by hold for the map. " +
+			"(e) every delete on the map is guarded by slot < minSlot with minSlot = FirstSlotOfEpoch(CurrentEpoch()-margin) — or, when cleaning swaps in a filtered copy, an entry is left out only on that edge and the scan and the swap are one write-locked critical section (no concurrent insert is lost) —, the subtraction is guarded, lock pairing and guarded-by hold for the map. " +
 			"NOT decided: that the beacon node's header belongs to the root; the size of the retention window; interleavings.",
 		Rule:        "one obligation per (rule, return/store/delete/handler site) in the implementers of BlockRootToSlot/SetBlockRootToSlot and the functions touching the blockRootToSlot map; non-trivial = the site exists in the code and a path/provenance query was evaluated for it",
 		Assumptions: []string{"go-eth2-client returns a non-nil response with non-nil Data.Header.Message when err == nil (library decoder contract)"},
@@ -240,10 +240,70 @@ func runC18(p *core.Prog, r *core.Report, tier string) {
 			checkGuardedSub(p, r, ds, f, "C18.e")
 		}
 	}
-	r.Floor("C18.e delete sites", nDel, 1)
-
 	// lock pairing + guarded-by for the map field
 	ls := core.NewLockAnalysis(p)
+	// the other shape of cleaning: a filtered copy swapped in. The copy must keep what is not old
+	// (entry-slot >= minSlot) and the scan and the swap must be one write-locked critical section,
+	// or an entry inserted in between is dropped although it is recent.
+	nSwap := checkFilteredSwap(p, r, ls, "C18.e", p.FuncsIn(cacheRel), func(f *ssa.Function) bool { return f.Name() == "New" })
+	if nSwap > 0 {
+		for _, f := range p.FuncsIn(cacheRel) {
+			core.EachInstr(f, func(in ssa.Instruction) {
+				mu, ok := in.(*ssa.MapUpdate)
+				if !ok {
+					return
+				}
+				if _, isLocal := mu.Map.(*ssa.MakeMap); !isLocal {
+					return
+				}
+				vd := ds.D(mu.Value)
+				if !(vd.Kind == "extract" && vd.Name == "2" && len(vd.Args) == 1 && vd.Args[0].Kind == "next") {
+					return
+				}
+				keepGuard := func(c core.Cond) int {
+					if c.Op == "" {
+						return -1
+					}
+					isRangeVal := func(d *core.VD) bool {
+						return d.Kind == "extract" && d.Name == "2" && len(d.Args) == 1 && d.Args[0].Kind == "next"
+					}
+					flip := false
+					if isRangeVal(c.X) {
+					} else if isRangeVal(c.Y) {
+						flip = true
+					} else {
+						return -1
+					}
+					for s := 0; s < 2; s++ {
+						rel := c.RelOnEdge(s)
+						if flip {
+							rel = core.FlipRel(rel)
+						}
+						if rel == "<" {
+							return 1 - s // kept on the other edge: entry-slot >= minSlot
+						}
+					}
+					return -1
+				}
+				// every recent entry is kept: an iteration skips the copy only on the edge entry-slot < minSlot
+				next := vd.Args[0].Val.(ssa.Instruction)
+				est := core.GuardEdges(ds, f, keepGuard)
+				w := core.PathQuery{Fn: f, From: next, Target: func(x ssa.Instruction) bool { return x == next },
+					Avoid: func(x ssa.Instruction) bool { return x == ssa.Instruction(mu) },
+					Edge: func(b *ssa.BasicBlock, succ int) bool {
+						if s, ok := est[b]; ok && s != succ {
+							return false // the edge entry-slot < minSlot: dropping is allowed there
+						}
+						return true
+					}}.Find()
+				r.Check(w == nil && len(est) > 0, "C18.e", core.FnKey(f)+"|filtered-copy|keeps-recent", p.Pos(mu.Pos()),
+					"an entry is left out of the copy only on the edge entry-slot < minSlot",
+					"an entry can be left out of the replacement map although its slot is not below minSlot", p.WitnessText(w)...)
+			})
+		}
+	}
+	r.Floor("C18.e delete or filter-and-swap sites", nDel+nSwap, 1)
+
 	for _, f := range p.FuncsIn(cacheRel) {
 		for _, v := range ls.Pairing(f) {
 			r.Violate("C18.e", core.FnKey(f)+"|lock-pairing|"+v.Lock, p.Pos(v.Pos), "lock "+v.Lock+" may be held at return", v.Witness...)
